@@ -16,10 +16,10 @@ Next == UNCHANGED t
 Sound == (~HasKind(t, "p") /\ WellFormed(t) /\ Parse(t).class = "ok") => Parse(t).pos = Den(t)
 (* the documented forms are all read *)
 Complete == Documented(t) => Parse(t).class = "ok"
-(* strands: a documented location is reverse iff its first position is beyond its last *)
-StrandOK == (Documented(t) /\ Len(Den(t)) > 1 /\ Reverse(t) \in {"forward", "reverse"}) =>
-              (Reverse(t) = "reverse") = (Den(t)[1] > Den(t)[Len(Den(t))])
+(* strands: a documented location on one strand is reverse iff its spans sit under an odd number of complements *)
+StrandOK == (Documented(t) /\ Cardinality(Parity(t, 0)) = 1) => (Reverse(t) = "reverse") = (Parity(t, 0) = {1})
 (* named deviations: TLC must find each of them (checked as must-fail invariants) *)
 NoSilentLoss == (WellFormed(t) /\ Parse(t).class = "ok") => Parse(t).pos = Den(t)       \* fails: a partial range inside a nested operator reads as nothing
+StrandByOrderOK == (Documented(t) /\ Cardinality(Parity(t, 0)) = 1) => (ReverseByOrder(t) = "reverse") = (Parity(t, 0) = {1})  \* fails: join(8..9,2..4)
 NoPanic == WellFormed(t) => Parse(t).class # "panic"                                    \* fails: single bases, bare ranges next to operators (mixed strands)
 =============================================================================
